@@ -75,6 +75,31 @@ def run(tier):
                             chk.violation('stock|%s|%s|W%d' % (desc0, nm, W),
                                           'real binary, %s, W=%d: output differs from the in-harness single-worker output [%s]' % (nm, W, desc0),
                                           {'engine': 'stock', 'cmdline': '%s -n%d %s %s' % (stock, W, lvl, ' '.join(mode)), 'stdin_desc': desc0})
+    # inputs smaller than the block size at levels >= 2, with runs that the initial run-length coding expands:
+    # stdin, FILE operand (-c and to a file) and a pipe must give the same bytes
+    for lvl, n, k in ((2, 90000, 'E'), (9, 90000, 'E'), (4, 299000, 'E'), (3, 150000, 'N')) if not quick else ((2, 90000, 'E'), (9, 90000, 'E')):
+        data = inputs.kind(k, n)
+        d = common.scratch('c03s')
+        fpath = os.path.join(d, 'f')
+        open(fpath, 'wb').write(data)
+        for mode in ([], ['-u']):
+            base_out = subprocess.run([stock, '-n2', '-%d' % lvl] + mode, stdin=open(fpath, 'rb'), stdout=subprocess.PIPE).stdout
+            o_c = subprocess.run([stock, '-n2', '-%d' % lvl, '-c'] + mode + [fpath], stdout=subprocess.PIPE).stdout
+            subprocess.run([stock, '-n3', '-%d' % lvl, '-k', '-f'] + mode + [fpath])
+            o_f = open(fpath + '.bz2', 'rb').read() if os.path.exists(fpath + '.bz2') else None
+            os.path.exists(fpath + '.bz2') and os.unlink(fpath + '.bz2')
+            o_p = subprocess.run('cat %s | %s -n1 -%d %s' % (fpath, stock, lvl, ' '.join(mode)), shell=True, stdout=subprocess.PIPE).stdout
+            chk.leg('real-binary', runs=4)
+            outs.add(common.fnv64(base_out))
+            try:
+                okb = inputs.bunzip(base_out) == data
+            except Exception:
+                okb = False
+            for nm, o in (('stdin (libbz2 round trip)', base_out if okb else None), ('-c FILE', o_c), ('FILE operand', o_f), ('pipe', o_p)):
+                if o != base_out:
+                    chk.violation('stock-small|%s%d|L%d|%s|%s' % (k, n, lvl, ' '.join(mode), nm),
+                                  'real binary, %d bytes of kind %s at level %d %s: %s gives different bytes than stdin input' % (n, k, lvl, ' '.join(mode), nm),
+                                  {'engine': 'stock', 'cmdline': '%s -%d %s FILE vs < FILE' % (stock, lvl, ' '.join(mode))})
     # exploration cells
     for sp, data, mode, lvl, exp, desc0 in groups:
         orc = sched.expect_exact(0, exp)
